@@ -17,6 +17,9 @@ def sh(cmd, cwd, timeout=1800):
     p = subprocess.run(cmd, cwd=cwd, shell=True, env=env, stdout=subprocess.PIPE, stderr=subprocess.STDOUT, timeout=timeout)
     return p.returncode, p.stdout.decode("utf-8", "replace")
 patch = os.path.join(mdir, "patch.diff")
+import re as _re
+_m = _re.search(r"demo_tags:\s*`?([\w,]+)`?", open(os.path.join(mdir, "notes.md")).read()) if os.path.exists(os.path.join(mdir, "notes.md")) else None
+TAGS = ("-tags " + _m.group(1)) if _m else ""
 meta = {"property": prop, "name": name, "ran": []}
 def step(label, cmd, cwd, **kw):
     rc, out = sh(cmd, cwd, **kw)
@@ -41,7 +44,7 @@ def run_demo():
     if any(os.path.isdir(p) for p in placed):
         d = [p for p in placed if os.path.isdir(p)][0]
         return sh("go run ./" + os.path.relpath(d, wt), wt, timeout=300)
-    return sh("go test -vet=off -count=1 -run 'Demo|Seed|Mutant|Test' ./%s" % demopkg, wt, timeout=300)
+    return sh("go test %s -vet=off -count=1 -run 'Demo|Seed|Mutant|Test' ./%s" % (TAGS, demopkg), wt, timeout=300)
 ok = True
 rc, _ = step("apply (scratch)", "git apply " + patch, wt); ok &= rc == 0
 rc, _ = step("build with mutant", "go build ./...", wt); ok &= rc == 0
@@ -54,7 +57,10 @@ for p in placed:
     shutil.rmtree(p) if os.path.isdir(p) else os.remove(p)
 meta["confirmed"] = bool(ok)
 detected = {}
-if ok:
+if ok and os.environ.get("SEED_NO_CHECK"):
+    meta["applies_to_repo"] = sh("git apply --check " + patch, "/repo")[0] == 0
+    meta["checks_note"] = "detection recorded in seeded/MATRIX.json (tools_matrix.py runs the checks on copies)"
+elif ok:
     rc, out = sh("git apply --check " + patch, "/repo")
     if rc != 0:
         meta["applies_to_repo"] = False
